@@ -11,7 +11,9 @@ connection class under the symx explorer:
   reader-total-bytes  the file is a buffer of n fully symbolic bytes (all 256^n contents, one path per behaviour
                       class) read through the real FlowReader/tnetstring/compat code; the C-level consumers
                       (int(), float(), str(.,'utf8'), memoryview) are contract shims listed in STUBS; the buffer is
-                      placed at top level, inside a list and as the value of the "version" key of a flow dict
+                      the whole file or the content of a list record (tnetstring layer + error mapping)
+  reader-total-version  the same with the symbolic buffer as the value of the "version" key of a flow dict: every
+                      version value (any int, byte pair, list, text ...) through compat.migrate_flow / Flow.from_state
   reader-total-states well-formed files whose flow state has one solver-chosen mutation (key removed / value
                       replaced by a value of another type / version changed): flows or FlowReadException, nothing else
   flow-fields / flow-sequences / flow-backup
